@@ -33,7 +33,7 @@ contract(M + "_is_fix_comment",
 
 contract(M + "FortranReaderBase.replace_omp_sentinels",
     types=dict(line="str", regex="regex"),
-    returns="tuple[str,bool]",
+    returns="tuple[str,bool]", pure=True,
     # every sentinel pattern built by set_format has a first group of exactly two characters
     # that took part in the match (validated exhaustively by checks/enum_sentinels.py)
     assume={"group1_len2": "implies(re_matched(regex, line), re_start(regex, line, 1) >= 0 and re_end(regex, line, 1) == re_start(regex, line, 1) + 2)"},
